@@ -288,6 +288,8 @@ impl Generator {
             }
         }
 
+        #[cfg(feature = "verif-hooks")]
+        super::verif::orig(&self.output[snapshot.output_len.min(self.output.len())..]);
         // post-process mutations
         self.post_process_emission(snapshot, source);
 
@@ -467,6 +469,8 @@ impl Generator {
     pub(super) fn emit_opcode(&mut self, opcode: OpcodeKind) {
         self.output.push(opcode.as_u8());
         self.process_stack_ops(opcode, None);
+        #[cfg(feature = "verif-hooks")]
+        super::verif::tail_step(self, opcode);
     }
 
     /// emit the PROTO opcode if appropriate for the protocol version.
